@@ -32,7 +32,7 @@ ID = "C16"
 LEVEL = "exploration"
 TIERS = {
     "quick": {"runs": 15000, "wall": 60, "run_timeout": 240, "shrink_s": 40, "draws": 40},
-    "thorough": {"runs": 100000, "wall": 1000, "run_timeout": 400, "shrink_s": 120, "draws": 60},
+    "thorough": {"runs": 450000, "wall": 1000, "run_timeout": 400, "shrink_s": 120, "draws": 60},
 }
 RULE = ("case = seeded reference continuum (2..5 annotators, 0..8 units each, bound_inf 0 or shifted by reset_bounds, short and long "
         "relative to the unit length) x ground-truth subset x pivot type; N draws per case, alternating real seeded draws and "
